@@ -120,6 +120,21 @@ class move_in_loop {
     std::vector<std::string> sinks;
 };
 
+// A8 move-from-caller rule: std::move on a forwarding reference
+struct fwd_sink {
+    std::vector<std::string> v;
+    template<class S>
+    void take_moved(S&& s)
+    {
+        v.push_back(std::move(s));
+    }
+    template<class S>
+    void take_forwarded(S&& s)
+    {
+        v.push_back(std::forward<S>(s));
+    }
+};
+
 // A8 uninitialised-local rule
 struct uninit_local {
     static int sink(const int& v) { return v; }
